@@ -202,9 +202,14 @@ def r2_no_unsafe(facts):
             c.ok("body:%s" % b["def"], loc(b, root) if root else "-", "no user-written unsafe block", nontrivial=False)
         if b.get("unsafe_fn"):
             c.bad("unsafe-fn:%s" % b["def"], loc(b, root), "`unsafe fn` %s" % b["def"])
+    n_derive = 0
     for it in facts.items:
         where = "%s:%d" % (F.rel(it["file"]), it["sp"][0])
-        if it.get("kind") == "impl" and it.get("unsafe") and not (it.get("exp") and False):
+        if it.get("kind") == "impl" and it.get("unsafe") and it.get("exp") and not it.get("exp_local") \
+                and (it.get("trait_def") or it.get("trait") or "").endswith("TrivialClone"):
+            # emitted by the compiler's built-in #[derive(Clone, Copy)] (a marker, no user code): not user-written unsafe
+            n_derive += 1
+        elif it.get("kind") == "impl" and it.get("unsafe"):
             c.bad("unsafe-impl:%s" % it["def"], where, "`unsafe impl` %s for %s" % (it.get("trait"), it.get("self")))
         elif it.get("kind") == "extern_block":
             c.bad("extern:%s" % it["def"], where, "extern block (foreign functions are unsafe to call)")
@@ -216,6 +221,7 @@ def r2_no_unsafe(facts):
     c.count("THIR blocks scanned", n_blocks)
     c.count("unsafe blocks from foreign macro expansions (not judged, e.g. vec!)", n_expansion_unsafe)
     c.count("items scanned", len(facts.items))
+    c.count("marker impls emitted by built-in derives (TrivialClone)", n_derive)
     return c
 
 
@@ -1275,9 +1281,17 @@ def r20_ownership_edges(facts):
     delta_fields = [f for f in slots if f["ty"].startswith("alloc::rc::Rc<core::cell::Cell<core::option::Option<")]
     c.floor("pending-delta slot of type Rc<Cell<Option<Array>>>", len(delta_fields), 1)
     n_acc = 0
+    # the engine is read through the inlined view (private helpers, local closures and place aliases resolved), so that
+    # an access written as `let slot = &child.delta; slot.take()` or through a local closure parameter is still seen
+    try:
+        from .inline import engine_view
+        view = engine_view(facts)
+        d_bodies = [(b, view.root(b)) for b in facts.bodies] + [(b, view.root(b)) for d, b in view.overlay.items() if facts.body(d) is None]
+    except Exception:       # pragma: no cover
+        d_bodies = [(b, facts.root(b)) for b in facts.bodies]
     for df in delta_fields:
-        for b in facts.bodies:
-            for n in walk(facts.root(b)):
+        for b, broot in d_bodies:
+            for n in walk(broot):
                 if n.get("k") == "Call" and n["args"]:
                     root, chain = field_chain(n["args"][0])
                     if chain and chain[-1] == df["name"] and (callee(n) or "").startswith("core::cell::Cell::<T>::"):
